@@ -294,6 +294,11 @@ def run(ctx, report: Report) -> None:
             if 'raises' in f.message:
                 r7.findings.append(f)
 
+    # ---- R8 (the whole pipeline by interpretation, bounded) --------------------------------------------------------------
+    r8 = report.rule('C08-R8', 'no entry point raises on a tree of unusual but legal content, in several document flavours (whole pipeline; bounded)', floor=1)
+    from .e2ematch import no_raise_table
+    no_raise_table(ctx, r8, deep=(ctx.tier == 'thorough'))
+
 
 
 def _spin_rule(ctx, r5, mmod, reach):
